@@ -10,6 +10,7 @@ CONSTANTS
   BarMode = FALSE
   NBars = 1
   MaxOps = 0
+  Cross = FALSE
   DEV_OdmMutatesFirst = FALSE
   DEV_DepositCreditsFirst = FALSE
   DEV_WithdrawMutatesFirst = FALSE
@@ -17,6 +18,7 @@ CONSTANTS
   DEV_BurnKeptOnReject = FALSE
   DEV_RedeemSwapsTokens = FALSE
   DEV_BountyUncapped = FALSE
+  DEV_LentLpAtIndex = FALSE
 SPECIFICATION Spec
 INVARIANT Inv_NonNeg
 INVARIANT Inv_Twap
